@@ -291,7 +291,7 @@ impl<'c, 's> Run<'c, 's> {
             r.tr(std::mem::take(&mut s));
             for (i, n) in cfg.nodes.iter().enumerate() {
                 r.tr(format!(
-                    "  node{} addr={:#04x} types={} sets={:?} framing={} tx_cap={} resp_cap={} autopoll={} boot_uuid={}",
+                    "  node{} addr={:#04x} types={} sets={:?} framing={} tx_cap={} resp_cap={} autopoll={} boot_uuid={} driver={} rx_offset={} single_tx_buffer={}",
                     i,
                     n.addr,
                     n.types.len(),
@@ -300,7 +300,10 @@ impl<'c, 's> Run<'c, 's> {
                     n.tx_cap,
                     n.resp_cap,
                     n.autopoll,
-                    n.boot_uuid.is_some()
+                    n.boot_uuid.is_some(),
+                    ["decode-then-process", "process-then-decode", "process-only"][n.call_mode.min(2) as usize],
+                    if n.rx_mode == 0 { "fixed" } else { "rotating" },
+                    n.shared_buf
                 ));
             }
             let rates: Vec<String> = (0..NF).filter(|&k| cfg.rate[k] > 0).map(|k| format!("{}={}pm", FAULT_NAMES[k], cfg.rate[k])).collect();
